@@ -3,6 +3,9 @@ import sys, os, re, json, time, subprocess, shutil, hashlib
 import concurrent.futures as cf
 
 NCPU = min(16, os.cpu_count() or 4)
+TIMEOUT_RC = -999
+# watchdog per harness shard: the real code must not hang (C01: every operation returns)
+SHARD_TIMEOUT = {"quick": 40, "thorough": 600}
 FORBIDDEN = re.compile(r"\bsorry\b|\badmit\b|^\s*axiom\s|native_decide|bv_decide|implemented_by|\bunsafe\s|maxHeartbeats\s+0")
 ALLOWED_AXIOMS = {"propext", "Classical.choice", "Quot.sound"}
 
@@ -197,7 +200,11 @@ def run(cmd, cwd=None, timeout=None, env=None):
     e["CARGO_NET_OFFLINE"] = "true"
     if env:
         e.update(env)
-    p = subprocess.run(cmd, cwd=cwd, stdout=subprocess.PIPE, stderr=subprocess.STDOUT, text=True, timeout=timeout, env=e)
+    try:
+        p = subprocess.run(cmd, cwd=cwd, stdout=subprocess.PIPE, stderr=subprocess.STDOUT, text=True, timeout=timeout, env=e)
+    except subprocess.TimeoutExpired as ex:
+        out = ex.stdout.decode() if isinstance(ex.stdout, bytes) else (ex.stdout or "")
+        return TIMEOUT_RC, out + f"\n[timeout after {timeout}s]"
     return p.returncode, p.stdout
 
 
@@ -306,14 +313,18 @@ def build_harness(ctx):
 
 def run_shard(ctx, idx, family, seqs, extra, shard, nshards, careful=False, tag=""):
     prefix = os.path.join(ctx.work, f"{family}{tag}_{idx}")
+    if getattr(ctx, "abort", False):
+        return {"prefix": prefix, "family": family, "rc": 0, "skipped": True, "same": True, "out": "", "cmd": ""}
     cmd = [ctx.harness, "--family", family, "--seed", str(ctx.seed * 7919 + idx), "--seqs", str(seqs), "--out", prefix] + extra
     if family in SHARDED:
         cmd += ["--shard", f"{shard}/{nshards}"]
     if careful:
         cmd += ["--careful"]
-    rc, out = run(cmd, timeout=3000)
+    rc, out = run(cmd, timeout=30 if careful else SHARD_TIMEOUT.get(ctx.tier, 90))
     res = {"prefix": prefix, "family": family, "rc": rc, "out": out[-2000:], "cmd": " ".join(cmd)}
     if rc != 0:
+        # a crash or a hang of the real code: no point in running the remaining shards
+        ctx.abort = True
         return res
     with open(prefix + ".ops") as fi, open(prefix + ".pred", "w") as fo:
         p = subprocess.run([ctx.driver], stdin=fi, stdout=fo, stderr=subprocess.PIPE, text=True)
@@ -364,9 +375,13 @@ def compare(ctx, res):
         props = set()
         for f in fields:
             props |= line_props(ops[i], f)
-        if forget_seq:
+        # after a forgotten iterator / an injected panic only structural fields speak about C17 / C16
+        # (what later operations return is the business of their own properties); the scenario
+        # line itself is tagged by line_props
+        structural = {"WALKERR", "st", "lb", "len"}
+        if forget_seq and structural & set(fields):
             props.add("C17")
-        if panic_seq:
+        if panic_seq and structural & set(fields):
             props.add("C16")
         start = seq_of(ops, i)
         if start in seen_seq:
@@ -399,7 +414,7 @@ def replay_lines(ctx, lines, tag):
     with open(path, "w") as f:
         f.write("\n".join(lines) + "\n")
     prefix = os.path.join(ctx.work, f"replay_{tag}")
-    rc, out = run([ctx.harness, "--family", "replay", "--ops", path, "--out", prefix, "--careful"], timeout=600)
+    rc, out = run([ctx.harness, "--family", "replay", "--ops", path, "--out", prefix, "--careful"], timeout=20)
     res = {"prefix": prefix, "rc": rc}
     if rc != 0:
         return True, [], [], out
@@ -633,13 +648,21 @@ def main(root, argv):
 
     violations = []   # (kind, replay path, suffix)
     known = []
-    # crashes
+    # crashes / hangs
+    crash_mon = []
     for r in results:
         if r["rc"] != 0:
-            # re-run carefully to find the line, then report the sequence prefix
-            rr = run_shard(ctx, 0, r["family"], 0, [], 0, 1) if False else None
+            # re-run carefully (every line flushed before it is executed) to find the line
+            ctx.abort = False
             cmd = r["cmd"].split(" ") + ["--careful"]
-            run(cmd, timeout=3000)
+            run(cmd, timeout=30)
+            hang = r["rc"] == TIMEOUT_RC
+            # did a monitor of this property already fail before the crash? then that is the better replay
+            for m in monitor_failures(r):
+                if m["prop"] == prop:
+                    crash_mon.append((r, m))
+            if crash_mon:
+                break
             try:
                 ops = open(r["prefix"] + ".ops").read().splitlines()
                 mon = open(r["prefix"] + ".mon").read().splitlines()
@@ -652,12 +675,15 @@ def main(root, argv):
                 lines.append(last[-1].split(" ", 2)[2])
             header = lines[0] if lines and lines[0].startswith("# seq") else "# seq 1 hasher=mix"
             body = [l for l in lines if not l.startswith("#")]
-            path = write_replay(ctx, "crash", header, body, "the harness process died (signal/abort) while running this sequence against the real code:\n" + r["out"][-1500:])
-            violations.append(("crash", path, ""))
+            what = ("an operation of the real code did not return within the watchdog time (the last line of the sequence is the call that hangs)"
+                    if hang else "the harness process died (signal/abort) while running this sequence against the real code")
+            path = write_replay(ctx, "hang" if hang else "crash", header, body, what + ":\n" + r["out"][-1500:])
+            violations.append(("hang" if hang else "crash", path, ""))
             break
     good = [r for r in results if r["rc"] == 0]
     # monitors
-    mon_hits = []
+    good = [r for r in good if not r.get("skipped")]
+    mon_hits = list(crash_mon)
     for r in good:
         for m in monitor_failures(r):
             if m["prop"] == prop:
